@@ -160,6 +160,7 @@ def main():
             "samples": samples if samples else [{"note": "no sample recorded"}],
             "exhaustive": bool(exhaustive and not new_viols),
             "shards": len(results), "shards_capped_by_deadline": capped,
+            "shard_list": [{"tag": r["tag"], "states": int((r["json"] or {}).get("states", 0) or 0), "cases": int((r["json"] or {}).get("cases", (r["json"] or {}).get("runs", 0)) or 0), "exhaustive": bool((r["json"] or {}).get("exhaustive", False))} for r in results],
             "bounds": plan.get("bounds", ""),
             "technique": plan.get("technique", ""),
             "counters": {k: v for k, v in tot.items() if v},
